@@ -36,6 +36,11 @@ def setup() -> Path:
         os.environ.pop("_SUPPRESS_DEP5_WARNING", None)
         os.environ.setdefault("FSFE_REUSE_TOOL_VERIF", "1")
         os.environ.pop("PYTHONPATH", None)
+        import logging
+
+        # messages of the code under test ("Could not parse ...") are not ours
+        logging.lastResort = None
+        logging.getLogger("reuse").addHandler(logging.NullHandler())
         _DONE = True
     import reuse  # noqa: PLC0415
 
